@@ -669,8 +669,6 @@ def segment_endpoints(ck, rule, only_label_numbers=False):
                 ck.ok(rule, short(init) + ":alignedPositions", w, "aligned pairs are kept in the order of the segment's positions", T.show(t)[:120])
             elif not only_label_numbers:
                 raise AnalysisError(f"{w}: aligned pairs of a segment not recognised: {T.show(t)[:160]}")
-    if n == 0 and not only_label_numbers:
-        raise AnalysisError(f"{init.where}: the store of alignedPositions was not found")
     if only_label_numbers:
         return
     from ..rules.common import merged_return
@@ -679,9 +677,18 @@ def segment_endpoints(ck, rule, only_label_numbers=False):
         if m is None:
             raise AnalysisError(f"AlignmentSegment.{name} not found")
         v, pa = merged_return(ck, m)
+        if v == T.mk_idx(self_attr("positions"), idx):
+            ck.violation(rule, short(m), where(m, pa.node),
+                         f"{name} is the {'first' if idx == C(0) else 'last'} *position* of the segment, not its "
+                         f"{'first' if idx == C(0) else 'last'} aligned pair: only the segments the builder makes begin and end with a "
+                         "pair - a segment the resolver has cut can begin with an unpaired label, and the next overlap test compares a "
+                         "position that has no reference / query pair", found=T.show(v)[:120], required=f"self.alignedPositions[{idx[1]}]")
+            continue
         ck.judge(v == T.mk_idx(self_attr("alignedPositions"), idx), rule, short(m), where(m, pa.node),
                  f"{name} is the {'first' if idx == C(0) else 'last'} aligned pair", found=T.show(v)[:120],
                  required=f"self.alignedPositions[{idx[1]}]")
+    if n == 0:
+        raise AnalysisError(f"{init.where}: the store of alignedPositions was not found")
 
 
 def conflict_decision(ck, rule, test_fn=None, only_label_numbers=False):
